@@ -23,7 +23,7 @@ import (
 // Spec is a replayable description of one member of S_mesh. Build always returns a fresh mesh
 // that shares no memory with any other mesh.
 type Spec struct {
-	Topo string `json:"topo"` // "tri" | "point"
+	Topo string `json:"topo"` // "tri" | "point" | "quad" | "line" | "strip" | "loop"
 	V    int    `json:"v"`    // vertex count
 	Idx  []int  `json:"idx"`
 	// Pos[i] is the palette slot (0..2) of vertex i, or nil for the all-distinct assignment.
@@ -84,10 +84,52 @@ var MatA = modeling.Material{Name: "matA"}
 var MatB = modeling.Material{Name: "matB"}
 
 func (s Spec) Topology() modeling.Topology {
-	if s.Topo == "point" {
+	switch s.Topo {
+	case "point":
 		return modeling.PointTopology
+	case "quad":
+		return modeling.QuadTopology
+	case "line":
+		return modeling.LineTopology
+	case "strip":
+		return modeling.LineStripTopology
+	case "loop":
+		return modeling.LineLoopTopology
 	}
 	return modeling.TriangleTopology
+}
+
+// IndexSize is the number of indices per primitive of a topology name (1 for points, strips and loops,
+// whose index arrays may have any length).
+func IndexSize(topo string) int {
+	switch topo {
+	case "tri":
+		return 3
+	case "quad":
+		return 4
+	case "line":
+		return 2
+	}
+	return 1
+}
+
+// TopoName is the Spec name of a topology.
+func TopoName(t modeling.Topology) string {
+	switch t {
+	case modeling.TriangleTopology:
+		return "tri"
+	case modeling.PointTopology:
+		return "point"
+	case modeling.QuadTopology:
+		return "quad"
+	case modeling.LineTopology:
+		return "line"
+	case modeling.LineStripTopology:
+		return "strip"
+	case modeling.LineLoopTopology:
+		return "loop"
+	}
+	return "other"
 }
 
 func (s Spec) Position(i int) vector3.Float64 {
@@ -157,12 +199,7 @@ func (s Spec) String() string {
 }
 
 // PrimCount of the spec.
-func (s Spec) PrimCount() int {
-	if s.Topo == "point" {
-		return len(s.Idx)
-	}
-	return len(s.Idx) / 3
-}
+func (s Spec) PrimCount() int { return len(s.Idx) / IndexSize(s.Topo) }
 
 // ---------------------------------------------------------------------------------------------
 // S_mesh(n,k) enumeration
@@ -187,9 +224,9 @@ func Enum(o EnumOpt, f func(i int, s Spec) bool) int {
 		for _, topo := range o.Topos {
 			for v := o.MinV; v <= o.MaxV; v++ {
 				var idxs [][]int
-				if topo == "tri" {
+				if sz := IndexSize(topo); sz > 1 {
 					for p := 0; p <= o.MaxP; p++ {
-						idxs = append(idxs, tuples(v, 3*p)...)
+						idxs = append(idxs, tuples(v, sz*p)...)
 					}
 				} else {
 					for p := 0; p <= o.MaxP; p++ {
